@@ -272,6 +272,54 @@ def check_interpolate(run, cx, cfg):
     run.check(bad_i is None, 'sinc.index-arithmetic', fn, cfg, bad_i or '', where=where(body))
 
 
+def check_precision(run, cx, cfg):
+    """Precision discipline of the kernel ("to within 1e-12 of the peak"): each tap's weight is an f64 and must meet the
+    lagged sample in f64 -- `weight * r.to_sample::<f64>()`, one conversion of the product to the frame's format.  A
+    product formed through `Sample::mul_amp` goes through the format's Float companion, which is f32 for every format
+    of 32 bits or less: i32 / u32 frames lose their low 8 bits.  Structural: the accumulating closures of interpolate
+    (the ones that call add_amp) convert the lagged sample to f64, multiply in f64, and use no Float-companion route."""
+    fn = PRE + 'interpolate'
+    body = cx.body(fn)
+    if body is None:
+        return
+    facts = cx.facts
+    clos = [b for b in facts.bodies.values() if b['kind'] == 'Closure' and (b.get('root') == fn or b['path'].startswith(fn + '::{closure'))]
+    # helpers reached from interpolate count too (a tap body moved into a private function)
+    reach = callee_closure(facts, [fn], crate='dasp_interpolate')
+    bodies = {b['path']: b for b in clos}
+    for p in reach:
+        b = facts.body(p)
+        if b is not None and p != fn:
+            bodies[p] = b
+            for c in facts.bodies.values():
+                if c['kind'] == 'Closure' and c['path'].startswith(p + '::{closure'):
+                    bodies[c['path']] = c
+    n = 0
+    for path, b in sorted(bodies.items()):
+        import mirutil
+        cs = [mirutil.resolved_path(t) or '' for _, t in mirutil.calls(b)]
+        decl = [(t['callee'] or {}).get('path', '') for _, t in mirutil.calls(b) if t.get('callee')]
+        if 'dasp_sample::Sample::add_amp' not in decl:
+            continue
+        n += 1
+        bad = None
+        for _, t in mirutil.calls(b):
+            c = t.get('callee') or {}
+            if c.get('path') in ('dasp_sample::Sample::mul_amp', 'dasp_sample::Sample::to_float_sample'):
+                bad = 'weights a sample through %s: the product is formed in the format\'s Float companion (f32 for formats of 32 bits or less), not in f64' % c['path'].rsplit('::', 1)[-1]
+                break
+            if c.get('path') in ('dasp_sample::Sample::to_sample', 'dasp_sample::Sample::from_sample') and any(a == 'f32' or str(a).endswith('::Float') for a in c.get('args', [])[1:]):
+                bad = 'converts through %s inside the accumulation' % [a for a in c['args'][1:]][0]
+                break
+        if not bad:
+            to64 = [1 for _, t in mirutil.calls(b) if (t.get('callee') or {}).get('path') == 'dasp_sample::Sample::to_sample' and 'f64' in (t['callee'].get('args') or [])[1:2]]
+            mul64 = [1 for op, ty, _ in fixed_float_arith(facts, b) if op == 'Mul' and ty == 'f64']
+            if not to64 or not mul64:
+                bad = 'the tap must be weight * sample.to_sample::<f64>() formed in f64 (no f64 conversion / multiplication found in the accumulating closure)'
+        run.check(bad is None, 'sinc.precision', path, cfg, bad or '', where=where(b))
+    run.floor('sinc.precision', 'accumulating closures of Sinc::interpolate (%s)' % cfg, n, 1)
+
+
 def run(run, tier, loadcfg):
     run.rule_text = 'one instance per (function x rule x configuration)'
     run.explanation = __doc__
@@ -283,5 +331,6 @@ def run(run, tier, loadcfg):
         cx = Ctx(fx_)
         check_state(run, cx, cfg)
         check_interpolate(run, cx, cfg)
+        check_precision(run, cx, cfg)
         from rules import C06
         C06.check_used(run, cx, cfg, [b for b in fx_.bodies.values() if b['path'].startswith(('dasp_interpolate::sinc::Sinc', '<dasp_interpolate::sinc::Sinc'))], 4)
